@@ -32,7 +32,16 @@ STATEMENT_STATUS: Dict[str, str] = {
     "C13_fuel_get_widths": "proved: work <= 65536 per element of the W array + lengths of the copied arrays (MAX_CID regenerated; round 1: proved counter-example, fixed in the repo)",
     "C13_fuel_resolve_all": "proved: recursion depth <= (objects + 1) * (deepest nesting + 2) + nesting of the value + 2 for every graph",
     "C13_family_resolve_all": "proved",
-    "parser, filters, fonts/CMaps, interpreter, layout, converters, encryption": "not modelled: fault enumeration only (search, not proof)",
+    "C13_calls_resolve1": "proved (round 6): getobj calls of resolve1 <= distinct object numbers + 1; the calls of the implementation are counted and compared",
+    "C13_work_xref_chain": "proved (round 6): sections loaded by read_xref_from <= sections of the file (each at most once)",
+    "C13_bound_rldecode": "proved (round 6): every payload - output <= 128 * input bytes; errors RuntimeError/StopIteration are in the regenerated _DECODE_ERRORS",
+    "C13_bound_asciihexdecode": "proved (round 6): every payload - 2 * output <= input + 1; only binascii.Error",
+    "C13_bound_ascii85decode": "proved (round 6): every payload - output <= 4 * input + 16; only ValueError",
+    "C13_bound_lzwdecode": "proved (round 6): every payload - output <= (8n+1)(8n+2); only IndexError",
+    "C13_bound_predictors": "proved (round 6): PNG and TIFF predictors on arbitrary Colors/Columns/BitsPerComponent and data - output <= input",
+    "C13_family_stream_decode": "proved (round 6): PDFStream.decode (model of C03, whole chain with predictors) returns data or raises a PDFException; CCITTFax is out of that model",
+    "PS/PDF parser, object streams, fonts/CMaps/Type1, content interpreter, layout, converters, security handlers, CCITT/Flate internals":
+        "not modelled here: fault enumeration only (search, not proof)",
 }
 
 # (class, exception, innermost function, fault kind, note)
